@@ -19,7 +19,10 @@ func NewConnectGun(cfg GunConfig, answLog *zap.Logger) *BaseGun {
 		cfg.TargetResolved = cfg.Target
 	}
 
-	return NewBaseGun(newConnectClient, cfg, answLog)
+	proxy := cfg.TargetResolved
+	return NewBaseGun(func(conf ClientConfig, target string) Client {
+		return newConnectClientVia(conf, target, proxy)
+	}, cfg, answLog)
 }
 
 func DefaultConnectGunConfig() GunConfig {
@@ -44,10 +47,15 @@ func DefaultConnectGunConfig() GunConfig {
 }
 
 func newConnectClient(conf ClientConfig, target string) Client {
+	return newConnectClientVia(conf, target, target)
+}
+
+// newConnectClientVia opens its tunnels at proxy (the pre-resolved address of the target); target names the host.
+func newConnectClientVia(conf ClientConfig, target, proxy string) Client {
 	transport := NewTransport(
 		conf.Transport,
 		newConnectDialFunc(
-			target,
+			proxy,
 			conf.ConnectSSL,
 			NewDialer(conf.Dialer),
 		),
